@@ -216,14 +216,19 @@ def rule_r4(p, res):
     grp, val = si.params[1], si.params[2]
     st = [n for n in walk_own(si.node) if isinstance(n, ast.Assign) and isinstance(n.targets[0], ast.Subscript) and norm(n.targets[0].value) == "self._landmark_groups"]
     need(len(st) == 1, "C06.R4: store not found")
+    from ..astutil import raising_ifs
     want = {
-        "None key": lambda t: norm(t) == "%s is None" % grp,
-        "dimensionality": lambda t: ("%s.n_dims != n_dims" % val) in norm(t) or ("%s.n_dims != self.n_dims" % val) in norm(t),
-        "PointCloud type": lambda t: norm(t) == "not isinstance(%s, PointCloud)" % val,
+        "None key": lambda t, pol: pol and norm(t) == "%s is None" % grp,
+        "dimensionality": lambda t, pol: pol and (("%s.n_dims != n_dims" % val) in norm(t) or ("%s.n_dims != self.n_dims" % val) in norm(t)),
+        "PointCloud type": lambda t, pol: (not pol) and norm(t) == "isinstance(%s, PointCloud)" % val,
     }
+    rifs = raising_ifs(si.node)
     for what, pred in want.items():
-        ifs = [n for n in walk_own(si.node) if isinstance(n, ast.If) and pred(n.test) and any(isinstance(x, ast.Raise) for x in n.body)]
-        ok = len(ifs) == 1 and g.dominates(ifs[0], st[0]) and not g.reaches(ifs[0].body[-1], st[0])
+        ifs = [n for t, pol, n in rifs if pred(t, pol)]
+        raise_stmts = []
+        for n in ifs:
+            raise_stmts += [x for x in (n.body + n.orelse) if isinstance(x, ast.Raise)]
+        ok = len(ifs) == 1 and g.dominates(ifs[0], st[0]) and not any(g.reaches(x, st[0]) for x in raise_stmts)
         r.check(ok, si, st[0], "the %s refusal does not dominate the store into the manager: an invalid group could be stored" % what, {"guard": what})
     gi = p.own_method("LandmarkManager", "__getitem__")
     r.instance(gi)
